@@ -136,6 +136,7 @@ def run_unit(unit, ctx):
         n_pred = n_upd = 0
         completed = True
         for step in range(STEPS[ctx["tier"]]):
+            last["raised_on"] = None
             try:
                 if rng.random() < 0.6 or not defn["sensors"]:
                     dt = md * rng.choice([1.0, 1.0, rng.uniform(0.01, 1.0)])
@@ -149,9 +150,19 @@ def run_unit(unit, ctx):
                     z = {q: float(pred[j, 0]) + rng.gauss(0, 1) for j, q in enumerate(rd)}
                     r = ekf.sensor_model(st, cov, sensor_key=sn, sensor_reading=ekf.make_reading(sn, **z))
                     n_upd += 1
-            except AssertionError:
+            except AssertionError as e:
                 completed = False
                 R.stats.inc("histories_cut_by_assertion")
+                if last["raised_on"] is None:
+                    # the refusal did not come from assert_valid_covariance (or that hook is gone):
+                    # decide on the covariance the step was given
+                    cls_in, asym_in, lam_in = classify(cov.data)
+                    R.stats.inc(f"refused_outside_hook_{cls_in}")
+                    if cls_in == "valid":
+                        R.add([K.V("refused-valid-covariance:other-assertion",
+                                   f"step {step}: the filter raised AssertionError({str(e)[:80]!r}) for a step whose input covariance is "
+                                   f"symmetric PSD (relative asymmetry {asym_in:.3g}, min eigenvalue {lam_in:.3g})",
+                                   defn=defn, matrix=cov.data.tolist(), family=fam, step=step, traceback=K.tb_text(e))])
                 break
             st, cov = r[0], r[1]
             R.evals += 1
